@@ -176,6 +176,7 @@ struct Global {
   Task tasks[kMaxTasks];
   int cur;
   uint64_t step;
+  uint64_t clock_offset;  // injected clock jumps (ns)
   uint64_t ops_done;
   Rng rng;
   // strategy state
@@ -587,6 +588,12 @@ void yield_point(Task* t, int kind, unsigned size, uint32_t pc) {
             to = cand;
             cause = 3;
           }
+        } else if (f.kind == F_CLOCK) {
+          // no switch: every clock reading from here on is `arg` ns later (an expiry or time-out
+          // inside the code under test elapses between two events)
+          g.clock_offset += f.arg;
+          f.fired = 1;
+          r.fault_fired[F_CLOCK]++;
         } else if (f.kind == F_STALL) {
           int cand = g.cfg.strategy == S_PCT ? pct_best(t->id) : random_eligible(t->id);
           if (cand >= 0) {
@@ -1180,6 +1187,7 @@ void run(const Config& cfg, TaskBody body, void* arg, Result& res) {
     g.ntasks = carried_hi;
   }
   g.step = 0;
+  g.clock_offset = 0;
   g.ops_done = 0;
   g.rng.s = mix64(cfg.seed ^ 0x5eed5eed5eedull);
   g.exp_head = 0;
@@ -2200,8 +2208,9 @@ int clock_gettime(clockid_t id, struct timespec* ts) {
   }
   t->in_rt = 1;
   yield_point(t, EV_CLOCK, 0, PC());
-  ts->tv_sec = (time_t)(g.step / 1000000000ull);
-  ts->tv_nsec = (long)(g.step % 1000000000ull);
+  const uint64_t now_ns = g.step + g.clock_offset;  // one event = one nanosecond, plus injected jumps
+  ts->tv_sec = (time_t)(now_ns / 1000000000ull);
+  ts->tv_nsec = (long)(now_ns % 1000000000ull);
   t->in_rt = 0;
   return 0;
 }
